@@ -9,7 +9,7 @@ use crate::visit::TermResult;
 use orx_concurrent_iter::{ConIterOfIter, ConIterOfRange, ConIterOfSlice, ConIterOfVec, IntoConcurrentIter, IterIntoConcurrentIter};
 use orx_parallel::verif::{par_from_con_iter, ParEmpty};
 use orx_parallel::{AsPar, IntoPar, IterIntoPar, Par, ParIntoCloned, ParIntoCopied};
-use orx_concurrent_iter::{ConcurrentIterable, IntoCloned};
+use orx_concurrent_iter::{ConcurrentIterX, ConcurrentIterable, IntoCloned};
 use std::collections::{BTreeMap, HashMap};
 use std::collections::{BTreeSet, BinaryHeap, HashSet, LinkedList, VecDeque};
 
@@ -103,17 +103,13 @@ pub fn piter(case: &Case, eff: &mut Eff, f: impl FnOnce(ParEmpty<<LogIter as Ite
     f(LogIter::new(&case.input, case.known, case.endless).par())
 }
 
-pub fn pdeque(case: &Case, eff: &mut Eff, f: impl FnOnce(ParEmpty<<VecDeque<Tok> as IntoPar>::ConIter>) -> R) -> R {
-    *eff = elems_of(&case.input);
-    let d: VecDeque<Tok> = make_toks(&case.input).into_iter().collect();
-    f(d.into_par())
-}
-
-pub fn pdequeref(case: &Case, eff: &mut Eff, f: impl for<'a> FnOnce(ParEmpty<<VecDeque<Tok> as AsPar<'a, Tok>>::ConIter>) -> R) -> R {
-    *eff = elems_of(&case.input);
-    // exercise the ring buffer: build the deque so that it is not contiguous
-    let mut d: VecDeque<Tok> = VecDeque::with_capacity(case.input.len() + 2);
-    let toks = make_toks(&case.input);
+/// a deque with the given content; `wrapped`: the ring buffer is not contiguous (`as_slices().1` is not empty)
+fn make_deque(input: &[u8], wrapped: bool) -> VecDeque<Tok> {
+    let toks = make_toks(input);
+    if !wrapped {
+        return toks.into_iter().collect();
+    }
+    let mut d: VecDeque<Tok> = VecDeque::with_capacity(input.len() + 2);
     let h = toks.len() / 2;
     let mut front = Vec::new();
     for (i, t) in toks.into_iter().enumerate() {
@@ -126,6 +122,20 @@ pub fn pdequeref(case: &Case, eff: &mut Eff, f: impl for<'a> FnOnce(ParEmpty<<Ve
     for t in front.into_iter().rev() {
         d.push_front(t)
     }
+    d
+}
+
+pub fn pdeque(case: &Case, eff: &mut Eff, f: impl FnOnce(ParEmpty<<VecDeque<Tok> as IntoPar>::ConIter>) -> R) -> R {
+    *eff = elems_of(&case.input);
+    // both layouts of the ring buffer: wrapped for inputs of even length, contiguous otherwise
+    let d = make_deque(&case.input, case.input.len() % 2 == 0);
+    f(d.into_par())
+}
+
+pub fn pdequeref(case: &Case, eff: &mut Eff, f: impl for<'a> FnOnce(ParEmpty<<VecDeque<Tok> as AsPar<'a, Tok>>::ConIter>) -> R) -> R {
+    *eff = elems_of(&case.input);
+    // both layouts of the ring buffer: contiguous for inputs of 3, 6, .. elements, wrapped otherwise
+    let d = make_deque(&case.input, case.input.len() % 3 != 0);
     let r = f(d.par());
     drop(d);
     r
@@ -251,6 +261,68 @@ pub fn pconslice(case: &Case, eff: &mut Eff, f: impl for<'a> FnOnce(ParEmpty<Con
 pub fn pconrange(case: &Case, eff: &mut Eff, f: impl FnOnce(ParEmpty<ConIterOfRange<usize>>) -> R) -> R {
     *eff = elems_of(&case.input);
     f(IntoConcurrentIter::into_con_iter(1usize..case.input.len() + 1).into_par())
+}
+
+/// number of elements taken from a concurrent iterator before it is turned into a computation
+fn pre_taken(n: usize) -> usize {
+    (1 + n % 2).min(n)
+}
+
+pub fn pconvecpre(case: &Case, eff: &mut Eff, f: impl FnOnce(ParEmpty<ConIterOfVec<Tok>>) -> R) -> R {
+    let k = pre_taken(case.input.len());
+    *eff = elems_of(&case.input)[k..].to_vec();
+    let ci = make_toks(&case.input).into_con_iter();
+    for _ in 0..k {
+        drop(ci.next());
+    }
+    f(ci.into_par())
+}
+
+pub fn pconslicepre(case: &Case, eff: &mut Eff, f: impl for<'a> FnOnce(ParEmpty<ConIterOfSlice<'a, Tok>>) -> R) -> R {
+    let k = pre_taken(case.input.len());
+    *eff = elems_of(&case.input)[k..].to_vec();
+    let v = make_toks(&case.input);
+    let ci = v.as_slice().into_con_iter();
+    for _ in 0..k {
+        _ = ci.next();
+    }
+    let r = f(ci.into_par());
+    drop(v);
+    r
+}
+
+pub fn pconrangepre(case: &Case, eff: &mut Eff, f: impl FnOnce(ParEmpty<ConIterOfRange<usize>>) -> R) -> R {
+    let k = pre_taken(case.input.len());
+    *eff = elems_of(&case.input)[k..].to_vec();
+    let ci = IntoConcurrentIter::into_con_iter(1usize..case.input.len() + 1);
+    for _ in 0..k {
+        _ = ci.next();
+    }
+    f(ci.into_par())
+}
+
+/// a by-value iterator of which the first elements were taken through its concurrent iterator; the counters
+/// of the source log start afresh (what was taken beforehand is not consumption by the computation)
+fn pre_taken_con_iter(case: &Case, eff: &mut Eff) -> ConIterOfIter<Tok, LogIter> {
+    let k = pre_taken(case.input.len());
+    *eff = elems_of(&case.input)[k..].to_vec();
+    let ci = IterIntoConcurrentIter::into_con_iter(LogIter::new(&case.input, case.known, false));
+    for _ in 0..k {
+        drop(ci.next());
+    }
+    crate::source::SRC_NEXTS.store(0, std::sync::atomic::Ordering::SeqCst);
+    crate::source::take_src_log();
+    ci
+}
+
+pub fn pconiterpre(case: &Case, eff: &mut Eff, f: impl FnOnce(ParEmpty<ConIterOfIter<Tok, LogIter>>) -> R) -> R {
+    let ci = pre_taken_con_iter(case, eff);
+    f(IntoPar::into_par(ci))
+}
+
+pub fn pconiterparpre(case: &Case, eff: &mut Eff, f: impl FnOnce(ParEmpty<ConIterOfIter<Tok, LogIter>>) -> R) -> R {
+    let ci = pre_taken_con_iter(case, eff);
+    f(IterIntoPar::par(ci))
 }
 
 pub fn pconiter(case: &Case, eff: &mut Eff, f: impl FnOnce(ParEmpty<ConIterOfIter<Tok, LogIter>>) -> R) -> R {
